@@ -190,6 +190,11 @@ def _run_case(case, pick, ak, np, stats):
         else:
             stats["unspec"] += 1
             return None
+    elif prog == "asarray" and case["from"].get("c") != "Numpy":
+        # np.asarray inside compiled code is typed for NumpyArray views only (an IndexedArray of numbers has the same
+        # element type but another view type): not one of the program shapes of this form
+        stats["unspec"] += 1
+        return None
     elif prog == "range":
         fn, args = F["p_range"], (arr, i, j)
     elif prog in ("len", "iter_count", "asarray", "field_x"):
